@@ -291,6 +291,10 @@ pub fn end_checks(w: &mut World, sc: &C17Scen) {
                 // the first connection was closed by the client and the close was lost: the
                 // server's next packet draws a stateless reset
                 E::Reset if !in_second && sc.close_first => true,
+                // the client closed the first connection while its server was still handshaking
+                // (the client's Finished was lost): an application close cannot be carried by a
+                // Handshake packet and arrives as APPLICATION_ERROR "during the handshake"
+                E::ConnectionClosed(_) if !in_second && sc.close_first && w.faults.m.contains_key("app_close") && text.contains("during the handshake") => true,
                 // (the server usually notices first: the client keeps using the remembered,
                 // higher limits until it sees the new parameters)
                 _ if in_second && incompat_expected => {
@@ -459,8 +463,8 @@ pub fn spec() -> PropSpec {
             Family { name: "backlog", f: fam_backlog, weight: 15 },
             Family { name: "credit", f: fam_credit, weight: 15 },
         ],
-        quick_worlds: 15_000,
-        thorough_worlds: 500_000,
+        quick_worlds: 80_000,
+        thorough_worlds: 1_200_000,
         panic_is_violation: true,
         rule: "each world = one seeded execution: a first connection on a clean network (ticket), then a second connection whose client application starts before the handshake completes; server behaviour for the second connection drawn from accept / refuse-with-resumption / refuse-without-resumption x same or different transport parameters x Retry x late accept; fault phase (loss, duplication, reordering, ECN, late timers) begins at the second connect; non-trivial = a fault fired or the second connection had 0-RTT keys; distinct = distinct abstract-event signature",
         assumptions: vec![
